@@ -220,6 +220,39 @@ var scenarios = []scenario{
 				}
 			}
 		}},
+	{ // second-round C07c: a CloseSend (or Close / SendError) queues on the write lock behind a sender that is inside the
+		// user's Marshal; the remote side ends the stream meanwhile; the next call is waiting for its turn
+		name: "terminal-op-queued-behind-marshal", ok: func(c sys.Config) bool { return c.GateU },
+		run: func(w *sys.World, rng *rand.Rand) {
+			r := freshStream(w, "none", true)
+			if r == 0 {
+				return
+			}
+			a := w.FreeThread()
+			if a == "" || !w.Step(sys.Stim{K: "op", T: a, Op: "SendG", R: r}) || w.Last().App[a] != "ma" {
+				return
+			}
+			a2 := ""
+			if len(w.Cfg.Threads) >= 4 { // one more sender queues first: it will park in Marshal again, holding the lock the terminal op waits for
+				if a2 = w.FreeThread(); a2 != "" {
+					w.Step(sys.Stim{K: "op", T: a2, Op: "SendG", R: r})
+				}
+			}
+			if b := w.FreeThread(); b != "" {
+				w.Step(sys.Stim{K: "op", T: b, Op: []string{"CloseSend", "CloseSend", "Close", "SendErr"}[rng.Intn(4)], R: r})
+			}
+			w.Step(sys.Stim{K: "hstep", A: []string{"reterr", "reterr", "retnil"}[rng.Intn(3)]})
+			w.Flow(12, nil) // the remote end of the stream reaches the client's reader
+			if d := w.FreeThread(); d != "" && w.NRPC() < sys.MaxRPC-1 {
+				w.Step(sys.Stim{K: "start", T: d, Op: []string{"Invoke", "NewStream"}[rng.Intn(2)], Md: "none"})
+			}
+			w.Step(sys.Stim{K: "relm", T: a})
+			w.Flow(30, hDefault)
+			if a2 != "" {
+				w.Step(sys.Stim{K: "relm", T: a2})
+				w.Flow(30, hDefault)
+			}
+		}},
 	{ // an undecodable message: the receiver gets the decoder's error, the stream lives on
 		name: "undecodable-message", ok: func(c sys.Config) bool { return true },
 		run: func(w *sys.World, rng *rand.Rand) {
